@@ -156,6 +156,24 @@ WFinalise(w0, contigs, k, repeats) ==
    IN [w EXCEPT !.out = [x \in 1..Len(w.out) |->
                            IF (x - 1) \in repeats /\ withMids[x] # Gap THEN NByte ELSE withMids[x]]]
 
+RECURSIVE WRun(_, _, _, _, _, _)
+WRun(w, contigs, k, writes, i, mask) ==
+   IF i > Len(writes) THEN w
+   ELSE WRun(WWrite(w, contigs, k, writes[i][1], writes[i][2], writes[i][3], mask), contigs, k, writes, i + 1, mask)
+
+\* IMPL, composed: what `ska map` does for one sample - the reference k-mers in index order, those the sample has
+\* are written (strand-corrected base) through the incremental writer, then finalise with the coordinates of the
+\* repeat loop.  MC_MapCompose checks it against the declarative MappedAln.
+MapImpl(contigs, k, idx, T, s, ambigMask, repeatMask) ==
+   LET kms == Kms(T)
+       hit == SelectSeq(idx, LAMBDA e : e.km \in kms /\ RowAt(T, e.km)[s] # Gap)
+       writes == [i \in 1..Len(hit) |->
+                    LET raw == RowAt(T, hit[i].km)[s] IN
+                    <<hit[i].pos, hit[i].chrom, IF hit[i].isrc THEN CompCode(raw) ELSE raw>>]
+       repsSeq == IF repeatMask THEN RepeatCoordsImpl(contigs, idx, k) ELSE <<>>
+       reps == {repsSeq[i] : i \in 1..Len(repsSeq)}
+   IN WFinalise(WRun(WNew(contigs, k), contigs, k, writes, 1, ambigMask), contigs, k, reps).out
+
 WScalars(w) == <<w.np, w.cu, w.lm, w.lw, w.of>>
 
 \* DECL for a bare writer run: what the centres written so far must give after finalise
